@@ -520,12 +520,19 @@ _APPS_CACHE = {}
 _DEFAULT_READY = [False]
 
 
-def _handler(x):
-    return _interp(_tl.stack[-1])
+def _make_handler():
+    def _handler(**kw):
+        return _interp(_tl.stack[-1])
+    return _handler
 
 
-def _view(app):
+_handler = _make_handler()      # every application gets its own function object (same code object)
+
+
+def _view(fr):
     """what the application's request/response objects show right now"""
+    apps = fr['apps']
+    app = apps[fr['app']]
     out = {}
     try:
         rq = app.request
@@ -534,6 +541,9 @@ def _view(app):
         out['query'] = sorted([k, v] for k, v in rq.query.items())
         out['method'] = rq.method
         out['cookie_hdr'] = rq.environ.get('HTTP_COOKIE')
+        out['app'] = next((i for i, a in enumerate(apps) if a is rq.app), -1)
+        out['route_own'] = getattr(rq.route, 'handler', rq.route) is getattr(app, '_verif_handler', None)
+        out['url_args'] = sorted([k, v] for k, v in rq.url_args.items())
     except Exception as e:  # noqa
         out['request_error'] = type(e).__name__
     try:
@@ -550,13 +560,13 @@ def _view(app):
 def _want(fr):
     q = [p.split('=', 1) for p in fr['qs'].split('&')] if fr['qs'] else []
     return dict(path=fr['path'], qs=fr['qs'], query=sorted(q), method=fr['method'], cookie_hdr=fr['cookie'],
+                app=fr['app'], route_own=True, url_args=[['x%d' % fr['app'], fr['path'][3:]]],
                 hdrs=sorted([k, v] for k, v in fr['w_hdrs'].items()), status=fr['w_status'],
                 cookies=sorted([k, v] for k, v in fr['w_cookies'].items()))
 
 
 def _see(fr, where):
-    app = fr['apps'][fr['app']]
-    fr['log'].append(dict(kind='see', tok=fr['tok'], where=where, got=_view(app), want=_want(fr)))
+    fr['log'].append(dict(kind='see', tok=fr['tok'], where=where, got=_view(fr), want=_want(fr)))
 
 
 def _gen_body(fr, n):
@@ -586,7 +596,25 @@ def _interp(fr):
         elif kind == 'copy':
             cp = app.request.copy()
             cp.environ['PATH_INFO'] = '/r/COPY' + fr['tok']
-            cp['QUERY_STRING'] = 'copy=' + fr['tok']
+            if fr.get('readonly'):
+                cp.environ['QUERY_STRING'] = 'copy=' + fr['tok']
+            else:
+                cp['QUERY_STRING'] = 'copy=' + fr['tok']
+        elif kind == 'call_copy':
+            # ['call_copy', j, script]: hand a COPY of this request to application j (nested call on the copy's environ)
+            sub = app.request.copy()
+            inner = dict(app=act[1], tok=fr['tok'] + 'cc', script=act[2], qs=fr['qs'], method=fr['method'],
+                         form=None, cookie=fr['cookie'], readonly=fr.get('readonly'))
+            do_call(fr['apps'], inner, fr['log'], environ=sub.environ, path=fr['path'])
+        elif kind == 'body_read':
+            # reading the body of a malformed / oversize request raises the framework's pre-built 400 / 413
+            if fr.get('chunked_bad'):
+                fr['w_final'], fr['w_status'] = 'error', 400
+            elif fr.get('too_big'):
+                fr['w_final'], fr['w_status'] = 'error', 413
+            data = app.request.body.read()
+            fr['log'].append(dict(kind='form', tok=fr['tok'], got=dict(body=data.decode('latin1')),
+                                  want=dict(body=fr['form'] or '')))
         elif kind == 'new_app':
             fr['apps'].append(ombott.Ombott())
         elif kind == 'form_see':
@@ -618,8 +646,9 @@ def _interp(fr):
     return 'done:' + fr['tok']
 
 
-def do_call(apps, call, log):
-    """one WSGI call of apps[call['app']]; appends the records of everything seen to `log`; returns the response"""
+def do_call(apps, call, log, environ=None, path=None):
+    """one WSGI call of apps[call['app']]; appends the records of everything seen to `log`; returns the response.
+    `environ`/`path`: serve this ready-made environ (a copy handed over by another handler) instead of a new one"""
     import io
     import ombott
     if call.get('construct'):
@@ -628,19 +657,31 @@ def do_call(apps, call, log):
         return None
     tok = call['tok']
     form = call.get('form')
-    body = form.encode('latin1') if form else b''
-    env = {
-        'REQUEST_METHOD': call.get('method', 'GET'), 'PATH_INFO': '/r/' + tok, 'QUERY_STRING': call.get('qs', ''),
-        'SERVER_NAME': 'localhost', 'SERVER_PORT': '80', 'SERVER_PROTOCOL': 'HTTP/1.1', 'wsgi.url_scheme': 'http',
-        'wsgi.input': io.BytesIO(body), 'wsgi.errors': io.StringIO(), 'SCRIPT_NAME': '',
-    }
-    if form:
-        env['CONTENT_LENGTH'] = str(len(body))
-        env['CONTENT_TYPE'] = 'application/x-www-form-urlencoded'
-    if call.get('cookie'):
-        env['HTTP_COOKIE'] = call['cookie']
-    fr = dict(apps=apps, app=call['app'], tok=tok, path='/r/' + tok, qs=call.get('qs', ''),
+    if environ is not None:
+        env = environ
+    else:
+        path = '/r/' + tok + call.get('pad', '')
+        body = form.encode('latin1') if form else b''
+        env = {
+            'REQUEST_METHOD': call.get('method', 'GET'), 'PATH_INFO': path, 'QUERY_STRING': call.get('qs', ''),
+            'SERVER_NAME': 'localhost', 'SERVER_PORT': '80', 'SERVER_PROTOCOL': 'HTTP/1.1', 'wsgi.url_scheme': 'http',
+            'wsgi.input': io.BytesIO(body), 'wsgi.errors': io.StringIO(), 'SCRIPT_NAME': '',
+        }
+        if call.get('chunked_bad'):
+            env['HTTP_TRANSFER_ENCODING'] = 'chunked'
+            env['wsgi.input'] = io.BytesIO(b'zz\r\n' + body + b'\r\n0\r\n\r\n')     # 'zz' is not a hex size
+        elif form:
+            env['CONTENT_LENGTH'] = str(len(body))
+            env['CONTENT_TYPE'] = 'application/x-www-form-urlencoded'
+        if call.get('cookie'):
+            env['HTTP_COOKIE'] = call['cookie']
+        if call.get('accept'):
+            env['HTTP_ACCEPT'] = call['accept']
+        if call.get('readonly'):
+            env['ombott.request.readonly'] = True
+    fr = dict(apps=apps, app=call['app'], tok=tok, path=path, qs=call.get('qs', ''),
               method=call.get('method', 'GET'), form=form, cookie=call.get('cookie'), script=call['script'],
+              readonly=call.get('readonly'), chunked_bad=call.get('chunked_bad'), too_big=call.get('too_big'),
               log=log, w_hdrs={}, w_status=200, w_cookies={}, w_final='text', w_body='done:' + tok)
     if not hasattr(_tl, 'stack'):
         _tl.stack = []
@@ -662,6 +703,7 @@ def do_call(apps, call, log):
         _tl.stack.pop()
     hdrs = sorted([k, v] for k, v in st.get('h', []))
     rec = dict(kind='response', tok=tok, status=st.get('s'), hdrs=hdrs, body=body_out.decode('latin1'),
+               accept_json=(env.get('HTTP_ACCEPT') or '').startswith('application/json'),
                w_final=fr['w_final'], w_status=fr['w_status'], w_body=fr['w_body'],
                w_hdrs=sorted([k, v] for k, v in fr['w_hdrs'].items()),
                w_cookies=sorted([k, v] for k, v in fr['w_cookies'].items()))
@@ -669,26 +711,29 @@ def do_call(apps, call, log):
     return rec
 
 
-def make_apps(napps, use_default):
-    """napps applications with the scripted handler on /r/<x>; number 0 is the module-level default app if asked"""
+def make_apps(napps, use_default, max_body=None):
+    """napps applications with a scripted handler on /r/<x{i}>; number 0 is the module-level default app if asked;
+    max_body: max_body_size of the applications built here (the default app keeps its configuration)"""
     import ombott
     apps = []
     for i in range(napps):
         if i == 0 and use_default:
             a = ombott.default_app()
             if not _DEFAULT_READY[0]:
-                a.route('/r/<x>', method='ANY', callback=_handler)
+                a._verif_handler = _make_handler()
+                a.route('/r/<x0>', method='ANY', callback=a._verif_handler)
                 _DEFAULT_READY[0] = True
         else:
-            a = ombott.Ombott()
-            a.route('/r/<x>', method='ANY', callback=_handler)
+            a = ombott.Ombott(dict(max_body_size=max_body)) if max_body is not None else ombott.Ombott()
+            a._verif_handler = _make_handler()
+            a.route('/r/<x%d>' % i, method='ANY', callback=a._verif_handler)
         apps.append(a)
     return apps
 
 
 def arr_codes():
     # the handler proper; the recording helpers (_see, _view, _want) and do_call are harness, not handler
-    return [f.__code__ for f in (_handler, _interp, _gen_body)]
+    return [f.__code__ for f in (_handler, _interp, _gen_body)]      # _handler: one code object for all applications
 
 
 def repo_trace_dir():
@@ -856,19 +901,19 @@ def _fingerprint(apps):
 
 def run_arrangement(case):
     """-> dict(threads=[log per thread], solo=[log per thread], steps=[...], hang=bool)"""
-    napps, use_default = case['napps'], case.get('default', False)
+    napps, use_default, max_body = case['napps'], case.get('default', False), case.get('max_body')
     n = len(case['calls'])
     # solo: every top-level call alone, on its own fresh set of applications
     solo = []
     solo_steps_ = []
     for i, call in enumerate(case['calls']):
-        ck = json.dumps([napps, use_default, call], sort_keys=True)
+        ck = json.dumps([napps, use_default, max_body, call], sort_keys=True)
         if ck in _SOLO_CACHE:
             lg, st = _SOLO_CACHE[ck]
             solo.append(json.loads(lg))
             solo_steps_.append(st)
             continue
-        apps = make_apps(napps, use_default)
+        apps = make_apps(napps, use_default, max_body)
         _warm(apps)
         log = []
         s = Scheduler([lambda a=apps, c=call, lg=log: do_call(a, c, lg)], 0, (), repo_trace_dir(), arr_codes())
@@ -879,13 +924,13 @@ def run_arrangement(case):
             _SOLO_CACHE[ck] = (json.dumps(log), s.steps[0])
     if case.get('reuse'):
         # (batches of schedules over one scenario) the applications are built once
-        rk = (napps, use_default)
+        rk = (napps, use_default, max_body)
         if rk not in _APPS_CACHE:
-            _APPS_CACHE[rk] = make_apps(napps, use_default)
+            _APPS_CACHE[rk] = make_apps(napps, use_default, max_body)
             _warm(_APPS_CACHE[rk])
         apps = _APPS_CACHE[rk]
     else:
-        apps = make_apps(napps, use_default)
+        apps = make_apps(napps, use_default, max_body)
         _warm(apps)
     logs = [[] for _ in range(n)]
     switches = case.get('switches') or []
@@ -935,6 +980,8 @@ def _tokens(calls, acc):
         for a in c['script']:
             if a[0] == 'call':
                 _tokens([a[1]], acc)
+            elif a[0] == 'call_copy':
+                acc.append(c['tok'] + 'cc')
     return acc
 
 
@@ -964,6 +1011,10 @@ def arrangement_failure(case, obs):
                 for other in toks:
                     if other != tok and not tok.startswith(other) and not other.startswith(tok) and other in text:
                         return 'thread %d: response of call %s contains text of call %s' % (ti, tok, other)
+                clen = [h[1] for h in rec['hdrs'] if h[0] == 'Content-Length']
+                if clen and clen != [str(len(rec['body'].encode('latin1')))]:
+                    return ('thread %d: call %s sent Content-Length %s with a body of %d bytes'
+                            % (ti, tok, clen, len(rec['body'].encode('latin1'))))
                 code = int((rec['status'] or '0').split()[0])
                 if code != rec['w_status']:
                     return 'thread %d: call %s answered %r, expected status %d' % (ti, tok, rec['status'], rec['w_status'])
@@ -977,7 +1028,11 @@ def arrangement_failure(case, obs):
                     if ck != rec['w_cookies']:
                         return 'thread %d: call %s cookies %s, handler set %s' % (ti, tok, ck, rec['w_cookies'])
                 else:
-                    if tok not in rec['body']:
+                    ctype = ' '.join(h[1] for h in rec['hdrs'] if h[0] == 'Content-Type')
+                    if rec.get('accept_json') != ctype.startswith('application/json'):
+                        return ('thread %d: error page of call %s has Content-Type %r, the request %s JSON'
+                                % (ti, tok, ctype, 'asked for' if rec.get('accept_json') else 'did not ask for'))
+                    if 'text/html' in ctype and tok not in rec['body']:
                         return 'thread %d: error page of call %s does not mention its own request' % (ti, tok)
         if log != obs['solo'][ti]:
             return 'thread %d: records differ from the same call served alone' % ti
